@@ -58,6 +58,7 @@ static int same (const obs *want, const obs *got) {
 void drv_case (uint64_t idx) {
   uint64_t l; const family *fam = locate (idx, &l); f3_features = 0; fam->render (l);
   int known_class = 0;
+  if ((f3_features & 1) && mode_ref) { vp_count ("generator_nontermination_class_left_to_C01", 1); return; }
   if (f3_features & 1) { /* members of a class listed in KNOWN_FINDINGS.txt (generator never returns): each shard executes the first one
                             to confirm the finding still exists and skips the rest; if one of them completes, nothing is skipped any more */
     if (vp_get ("known_class_started") >= 1 && vp_get ("known_class_completed") == 0) { vp_count ("known_class_not_executed", 1); return; }
